@@ -735,6 +735,39 @@ fn get_proxy_agent_file_version_in_extension() -> String {
 }
 
 // test report status
+/// Verification-only entry points to the monitor pass (compiled only with `--cfg azure_guestproxyagent_verif`):
+/// the functions below are private and are otherwise reached only from the service threads.
+#[cfg(azure_guestproxyagent_verif)]
+pub mod verif_access {
+    use super::*;
+
+    pub fn aggregate_status_pass(
+        proxyagent_file_version_in_extension: &String,
+        status: &mut StatusObj,
+        status_state_obj: &mut common::StatusState,
+        restored_in_error: &mut bool,
+        service_state: &mut ServiceState,
+    ) {
+        super::report_proxy_agent_aggregate_status(
+            proxyagent_file_version_in_extension,
+            status,
+            status_state_obj,
+            restored_in_error,
+            service_state,
+        )
+    }
+
+    pub fn service_status_pass(
+        output: Result<Output, Error>,
+        status_folder: PathBuf,
+        seq_no: &str,
+        status: &mut StatusObj,
+        status_state_obj: &mut common::StatusState,
+    ) {
+        super::report_proxy_agent_service_status(output, status_folder, seq_no, status, status_state_obj)
+    }
+}
+
 #[cfg(test)]
 mod tests {
     use crate::constants;
